@@ -918,6 +918,27 @@ pub fn run(tier: &str, seed: u64) -> Report {
       }
     }
   }
+  // a registry below a path (a mirror): package URLs lie below the registry URL and map back
+  for base in ["https://registry.example.com/jsr/", "https://mirror.test/a/b/", "http://localhost:8000/"] {
+    let regb = ModuleSpecifier::parse(base).unwrap();
+    for name in PKG_NAMES {
+      for v in VERSIONS.iter().take(2) {
+        let nv = PackageNv { name: (*name).into(), version: Version::parse_standard(v).unwrap() };
+        let url = deno_graph::source::recommended_registry_package_url(&regb, &nv);
+        report.evaluations += 1;
+        let want = format!("{}{}/{}/", base, name, v);
+        if url.as_str() != want {
+          report.fail("oracle", "package-url-not-below-registry-url", format!("registry {}: {} -> {}, expected {}", base, nv, url, want), json!({}));
+        }
+        for tail in ["", "mod.ts", "a/b/c.ts"] {
+          let u = url.join(tail).unwrap();
+          if deno_graph::source::recommended_registry_package_url_to_nv(&regb, &u).as_ref() != Some(&nv) {
+            report.fail("oracle", "url-nv-round-trip-fails", format!("registry {}: {} -> {} does not map back", base, nv, u), json!({}));
+          }
+        }
+      }
+    }
+  }
   for name in PKG_NAMES {
     for v in VERSIONS {
       let nv = PackageNv { name: (*name).into(), version: Version::parse_standard(v).unwrap() };
